@@ -40,26 +40,69 @@ func (g *verifLRUGhost) add(k string) {
 	}
 }
 
+func verifLRUCheck(c *LRUCache, g *verifLRUGhost, nkeys int) {
+	verif.Assert("size-equals-reference", c.Size() == len(g.order))
+	verif.Assert("size-within-limit", c.Size() <= g.size)
+	for _, key := range verifKeys[:nkeys] {
+		verif.Assert("membership-follows-lru-order", c.Has(key) == (g.index(key) >= 0))
+	}
+}
+
 // VerifLRUEvictionOrder: without expiry (TTL one hour, no time passes) the
 // cache holds at most Size keys and always drops the least recently added or
 // refreshed key first: membership equals that of the reference list after
-// every operation.
+// every operation. Histories are made of the two operations that shape the
+// order, Add and Delete, over every key, long enough for delete / re-add /
+// overflow chains (Add a, Add b, Delete a, Add a, Add c needs five).
 func VerifLRUEvictionOrder() {
 	nkeys := verif.Bound("keys", 3, 4)
-	size := verif.Len("size", 1, verif.Bound("max_size", 2, 3))
+	size := verif.Len("size", verif.Bound("min_size", 2, 1), verif.Bound("max_size", 2, 3))
 	c := NewLRUCache(LRUCacheConfig{Size: size, TTL: time.Hour})
 	g := &verifLRUGhost{size: size}
-	k := verif.Bound("ops", 4, 6)
+	k := verif.Bound("ops", 5, 6)
 	for i := 0; i < k; i++ {
-		switch verif.Choice("op", 4) {
-		case 0:
-			key := verifKeys[verif.Choice("key", nkeys)]
-			refresh := g.index(key) >= 0
+		key := verifKeys[verif.Choice("key", nkeys)]
+		if verif.Choice("op", 2) == 0 {
+			present := g.index(key) >= 0
 			full := len(g.order) == size
 			c.Add(key)
 			g.add(key)
-			verif.Cover("refresh", refresh)
-			verif.Cover("evict-on-add", full && !refresh)
+			verif.Cover("refresh", present)
+			verif.Cover("evict-on-add", full && !present)
+		} else {
+			verif.Cover("delete-present", g.index(key) >= 0)
+			c.Delete(key)
+			g.remove(key)
+		}
+		verifLRUCheck(c, g, nkeys)
+	}
+	// drain: adding fresh keys until everything older is pushed out exposes
+	// any stale bookkeeping left behind by the history above
+	for j := 0; j < size; j++ {
+		c.Add(verifDrainKeys[j])
+		g.add(verifDrainKeys[j])
+		verif.Assert("size-equals-reference", c.Size() == len(g.order))
+		for _, key := range verifKeys[:nkeys] {
+			verif.Assert("membership-follows-lru-order", c.Has(key) == (g.index(key) >= 0))
+		}
+	}
+}
+
+var verifDrainKeys = []string{"d0", "d1", "d2"}
+
+// VerifLRUClear: Clear in the middle of short histories (all four operations).
+func VerifLRUClear() {
+	nkeys := 2
+	size := verif.Len("size", 1, 2)
+	c := NewLRUCache(LRUCacheConfig{Size: size, TTL: time.Hour})
+	g := &verifLRUGhost{size: size}
+	k := verif.Bound("ops", 4, 5)
+	for i := 0; i < k; i++ {
+		switch verif.Choice("op", 3) {
+		case 0:
+			key := verifKeys[verif.Choice("key", nkeys)]
+			c.Add(key)
+			g.add(key)
 		case 1:
 			key := verifKeys[verif.Choice("key", nkeys)]
 			c.Delete(key)
@@ -67,13 +110,9 @@ func VerifLRUEvictionOrder() {
 		case 2:
 			c.Clear()
 			g.order = nil
-		case 3: // observation only
+			verif.Reach("cleared")
 		}
-		verif.Assert("size-equals-reference", c.Size() == len(g.order))
-		verif.Assert("size-within-limit", c.Size() <= size)
-		for _, key := range verifKeys[:nkeys] {
-			verif.Assert("membership-follows-lru-order", c.Has(key) == (g.index(key) >= 0))
-		}
+		verifLRUCheck(c, g, nkeys)
 	}
 }
 
